@@ -72,7 +72,7 @@ func c14Scenarios(thorough bool) []c14Scenario {
 			{Op: "completion", Doc: "main.journal", Line: 4, Char: 11},
 			{Op: "wsymbol", Text: ""},
 		}},
-		{Name: "S3-configuration-refresh", Files: files, Config: true, Bound: b(2, 3),
+		{Name: "S3-configuration-refresh", Files: files, Config: true, Bound: b(1, 2),
 			InitCfg: `{"cli":{"path":"/nonexistent/h1"},"completion":{"maxResults":3}}`,
 			Msgs: []wire.Msg{
 				{Op: "initialized"},
